@@ -226,6 +226,14 @@ func c06r2(c *core.Ctx) {
 					why = "the count is not the count passed to the move"
 				}
 			}
+			if !okArgs {
+				// the start and the count may travel through helper results and batch-record fields: trace them to their
+				// sources (destination length read before it grew; moved/created count) like the dispatch-range rule does
+				rc := c06RangeCtx(c)
+				if rc.isStart(f, call.Args[1], 0) && rc.isCount(f, call.Args[2], 0) && !rc.isStart(f, call.Args[2], 0) {
+					okArgs = true
+				}
+			}
 			if okArgs {
 				c.OK("C06/R2", subject, c.At(call.Pos()), "callback receives the destination table, the start row of the moved block and the moved count")
 			} else {
@@ -402,6 +410,17 @@ func storedInStructItself(m *core.Model, keys []string) bool {
 		}
 	}
 	return true
+}
+
+var c06RangeCache = map[*core.Model]*rangeCtx{}
+
+func c06RangeCtx(c *core.Ctx) *rangeCtx {
+	if r, ok := c06RangeCache[c.M]; ok {
+		return r
+	}
+	r := newRangeCtx(c)
+	c06RangeCache[c.M] = r
+	return r
 }
 
 // c06r3: row coherence of callbacks.
